@@ -132,7 +132,9 @@ def hist_signature(c, lossless_bad):
     if lossless_bad:
         return "rotation-readback-not-exactly-once-in-order"
     snaps, ops = c["Snaps"] or [], c["Ops"]
-    si, prev, pending = 0, [], []
+    si, pending = 0, []
+    prev = sorted(({"Stamp": p["Stamp"], "Size": p["Size"], "Ids": p["Ids"]} for p in (c.get("Planted") or [])),
+                  key=lambda f: f["Stamp"])
     for o in ops:
         if o["Op"] == "log":
             pending.append(o["Id"])
@@ -221,7 +223,7 @@ def run(tier, seed):
                  "raw: one perturbation of a valid stream (30 kinds: separators, impossible dates, truncation, garbage, CRLF, out-of-range numbers), decoder vs model; distinct by stream. "
                  "probe: 20 kinds of entries outside the guards (white space at message edges, colon/empty/newline file names, negative numbers, years outside 2000-2068, multi-line messages), model agreement only. "
                  "hist: real main/secondary logger in a fresh directory, LogFileMaxSize in {64..4096} around the measured header size, entry sizes steered to the rotation threshold +-2 using the real syncBuffer.nbytes, "
-                 "threshold changes, snapshots (flush, list, decode every file), SetSync(true) followed by a flush and a snapshot with no write in between (and SetSync(false) back), looks at the files without a flush while in sync mode, GC runs with bounds at the cumulative sizes +-1 / 0 / MaxInt64, planted older files; gc-only: planted file sets + GC. "
+                 "threshold changes, snapshots (flush, list, decode every file), SetSync(true) followed by a flush and a snapshot with no write in between (and SetSync(false) back), looks at the files without a flush while in sync mode, GC runs with bounds at the cumulative sizes +-1 / 0 / MaxInt64, planted older files (empty, zero-filled or holding formatted messages of their own; named after the real or after another host/user so that name order and time-stamp order differ), FetchEntriesFromFiles on the main logger; gc-only: planted file sets + GC. "
                  "non-trivial = at least two files at the end or a GC run; distinct by operation list."),
         "samples": summary["samples"],
         "distribution": {k: summary[k] for k in ("codec", "codec_entries", "codec_classes", "raw", "raw_kinds", "probe",
